@@ -279,6 +279,7 @@ var c04Alpha = []string{
 	"addi zero, t0, 1",  // destination zero
 	"add t2, t0, zero",  // source zero
 	"jal t1, j%d\nj%d:", // link register written by a jump that flushes
+	"li t3, 3\nl%d:\nadd t2, t2, t3\naddi t3, t3, -1\nbnez t3, l%d", // loop-carried dependence, reader below writer
 }
 
 var c04Core = []int{0, 1, 2, 3, 4, 7, 8, 10, 12}
@@ -292,6 +293,13 @@ func c04Programs(tier string, emit func(p pxProg)) {
 		for n := 1; n <= full; n++ {
 			seqs(len(c04Alpha), n, func(idx []int) {
 				var b []string
+				if n >= 4 {
+					for _, k := range idx {
+						if k == len(c04Alpha)-1 {
+							return // the loop template takes part up to length 3 only (cost)
+						}
+					}
+				}
 				for i, k := range idx {
 					b = append(b, strings.ReplaceAll(c04Alpha[k], "%d", fmt.Sprint(i)))
 				}
@@ -313,7 +321,7 @@ var c04Suite = &pxSuite{
 	Programs:   c04Programs,
 	Violates:   wrongResult,
 	Nontrivial: func(ref *refResult, p pxProg) bool { return ref.Deps > 1 },
-	Rule:       "PX: every sequence of length <= 3 (quick) / <= 4 (thorough) over the 16-template register-pressure alphabet (addi/add/mul/mv/sub over t0..t3 with rd=rs aliases, duplicated sources, zero as destination and as source, a jal whose link register is read next, loads that miss then hit into t0/t1/t2, stores as late readers) and of length 4 / 5 over a 9-template core, x cache pre-state {cold, lines 0 and 64 warm}, on MVP-4..8 x parallelism 1..4; oracle = every register holds the value of its last writer in program order (sequential reference) and stores saw the program-order value; non-trivial = distinct programs with at least two register dependences within a distance of two instructions",
+	Rule:       "PX: every sequence of length <= 3 (quick) / <= 4 (thorough) over the 17-template register-pressure alphabet (addi/add/mul/mv/sub over t0..t3 with rd=rs aliases, duplicated sources, zero as destination and as source, a jal whose link register is read next, a three-iteration loop whose loop-carried reader sits below its writer (up to length 3 only), loads that miss then hit into t0/t1/t2, stores as late readers) and of length 4 / 5 over a 9-template core, x cache pre-state {cold, lines 0 and 64 warm}, on MVP-4..8 x parallelism 1..4; oracle = every register holds the value of its last writer in program order (sequential reference) and stores saw the program-order value; non-trivial = distinct programs with at least two register dependences within a distance of two instructions",
 }
 
 // ------------------------------------------------------------------ C05
